@@ -230,7 +230,7 @@ func TestC02(t *testing.T) {
 		w2, _ := kit.BuildWorld(s, nil)
 		l, _ := newL1(w)
 		twin, _ := newL1(w2)
-		g := kit.NewTxnGen(s, cfgC02)
+		g := kit.NewTxnGen(s, withBig(t, cfgC02))
 		n := rapid.IntRange(2, 12).Draw(t, "ntxn")
 		var hist [][]kit.Op
 		var labels []string
